@@ -25,6 +25,13 @@ def main():
     common.pin_environment()
     mod = importlib.import_module(a.prop.lower())
     ctx = common.Ctx(a.prop, tier, seed)
+    import signal
+
+    def on_alarm(signum, frame):
+        raise TimeoutError(f'check exceeded its time budget ({budget} s): the implementation is far slower than on the unchanged tree or does not terminate')
+    budget = int(os.environ.get('VERIF_BUDGET_S', '1500' if tier == 'quick' else '28000'))
+    signal.signal(signal.SIGALRM, on_alarm)
+    signal.alarm(budget)
     try:
         if a.replay:
             obj = json.load(open(a.replay))
